@@ -357,6 +357,13 @@ class MetadataManager:
                 self.storage.write_file_cas(self.HINT_PATH, content, hint_etag)
                 return
             except CASConflictError as e:
+                # A refused conditional PUT does not prove that OUR write did
+                # not happen: the S3 client re-sends a PutObject whose response
+                # was lost, and the re-sent copy is refused precisely because
+                # the first one landed. Calling that a conflict would discard
+                # the metadata file the hint now names and commit a second time.
+                if self._hint_write_landed(metadata_file):
+                    return
                 raise ConcurrentModificationException(
                     "Version hint changed under us (CAS conflict); retrying"
                 ) from e
@@ -378,6 +385,25 @@ class MetadataManager:
             raise AmbiguousCommitError(
                 f"Version hint write failed ambiguously: {e}"
             ) from e
+
+    def _hint_write_landed(self, metadata_file: str) -> bool:
+        """After a refused conditional hint write: did OUR write land anyway?
+
+        Metadata file names carry a random suffix, so a hint whose content is
+        exactly our file name was written by this commit. (Version NUMBERS
+        identify nothing: a rival's file carries the same number.) If the hint
+        cannot be read back, the outcome of the commit is unknown ->
+        AmbiguousCommitError.
+        """
+        try:
+            parsed = self._parse_hint_content(self.storage.read_file(self.HINT_PATH))
+        except FileNotFoundError:
+            return False
+        except Exception as e:
+            raise AmbiguousCommitError(
+                f"Version hint write was refused and could not be read back: {e}"
+            ) from e
+        return parsed is not None and parsed[1] == metadata_file
 
     def _discard_unpublished_metadata(self, metadata_path: str) -> None:
         """Best-effort removal of a metadata file whose commit point cleanly
